@@ -9,8 +9,11 @@ GO = dict(module="core", pkg="internal/protocol", pkgname="protocol",
 # the end-to-end class runs in another package: the real server (http3 stream dispatcher, ProxyStreamHijacker, handleTCPRequest)
 GO_E2E = dict(module="core", pkg="internal/integration_tests", pkgname="integration_tests",
               files={"zz_verif_c04e_test.go": "c04/c04_e2e_test.go"}, run="TestVerifC04E2E")
+# the client-side class runs in package client: the real clientImpl.TCP / tcpConn.Read against a scripted raw peer
+GO_CLI = dict(module="core", pkg="client", pkgname="client",
+              files={"zz_verif_c04c_test.go": "c04/c04_cli_test.go"}, run="TestVerifC04Cli")
 PARAMS_NAME = "ParamsC04"
-HEADER = ("From Hy Require Import lib.Harness lib.Reader model.C04_Framing model.C04_Dispatch corr.C04_Corr.\n"
+HEADER = ("From Hy Require Import lib.Harness lib.Reader model.C04_Framing model.C04_Dispatch model.C04_Client corr.C04_Corr.\n"
           "From Coq Require Import ZArith.\nLocal Open Scope N_scope.\n")
 RULE = ("seeded generator: ReadTCPRequest / server frame-type read + ReadTCPRequest / ReadTCPResponse on a scripted io.Reader "
         "(chunks, zero-length reads, data+error reads, EOF/other errors, trailing payload) that counts requested bytes; "
@@ -40,16 +43,28 @@ RULE = ("seeded generator: ReadTCPRequest / server frame-type read + ReadTCPRequ
         "ReadTCPResponse, the target must receive exactly the trailing payload; empty/over-limit lengths behind a wide frame type must not "
         "be dialled and the server must end the stream though fewer bytes than declared follow; other frame types are not dialled; "
         "'never dialled' is only a verdict after a canonical probe stream on the same connection was served; compared with the model of "
-        "the dispatcher (Peek) + hijacker + ReadTCPRequest. Non-trivial = well-formed frame read under a non-trivial chunking / non-minimal width / with "
+        "the dispatcher (Peek) + hijacker + ReadTCPRequest. CLIENT SIDE (package client): the real clientImpl.TCP (eager path) and "
+        "tcpConn.Read (lazy FastOpen path) on a loopback QUIC stream against a scripted raw peer that writes status byte | message "
+        "length on every legal width | message | padding length on every legal width | padding | payload and controls coalescing: "
+        "hold = the peer stops after the first h bytes, the application waits (Stream.Peek) until exactly these are queued, issues "
+        "its first Read and only then the rest is written - h at EVERY position of short streams (inside the frame: the response "
+        "arrives in two parts), behind the frame at +1, +2, first buffer +-1, 4095/4096/4097, end-1, random; whole stream queued "
+        "before the first Read; free-running; application buffers 1,2,3,4,7,8,16,31,64,100,512,1000,1024,4095,4096,4097,8192,32768 "
+        "(constant, first-small-then-large, mixed), payloads 0..9000, with and without FIN; success responses: the concatenation of "
+        "what the Reads return must be exactly the payload (then io.EOF with FIN); failure statuses 1,2,255: DialError with exactly "
+        "the message from TCP() / from the first Read and no payload byte; over-limit lengths: an error that is no DialError; 'bytes "
+        "never arrived' only after a probe stream on the same connection was served; compared with model/C04_Client.v. Non-trivial = well-formed frame read under a non-trivial chunking / non-minimal width / with "
         "trailing payload, or an over-limit frame, or a writer round trip. Distinct = distinct JSON case.")
 ASSUMPTIONS = [
     "the stream handed to the readers has no ReadByte method (utils.QStream has none), so quicvarint.NewReader wraps it in the one-byte-at-a-time byteReader",
     "io.ReadFull / io.CopyN / io.Discard / io.LimitedReader behave as in the Go 1.25 source they were transcribed from (lib/Reader.v)",
     "the io.Reader honours its contract (returns at most len(p) bytes); scripts are finite (an exhausted script reads as io.EOF)",
     "quic.Stream.Peek hands out the next len(b) bytes of the stream without consuming them and waits until they have arrived (model/C04_Dispatch.v peek_s); the connection is authenticated when the request stream is dispatched",
+    "client side: quic.Stream.Read(p) hands out the bytes of the stream in order, at most len(p) of them, as many as are queued (model: read1 on the script); the application does not use the connection from two goroutines (Established is a plain field)",
     "concurrent parsers share no state: each reads only its own stream and the modelled functions use no package-level state, so a concurrent run is modelled as the sequential runs of its streams (checked on every run by the concurrency class of the harness: interleavings at the gates of the scripted readers, not every instruction-level interleaving)",
 ]
 TRUSTED = ["modelled rather than verified: core/internal/protocol/proxy.go TCP framing functions and the Go io helpers (hand transcription in coq/model/C04_Framing.v and coq/lib/Reader.v)",
+           "modelled rather than verified: core/client clientImpl.TCP (response handling) and tcpConn.Read (hand transcription in coq/model/C04_Client.v; tied by the client-side class against a scripted raw peer)",
            "modelled rather than verified: http3's per-stream dispatch (quicvarint.Peek + StreamDispatcher) and core/server ProxyStreamHijacker (hand transcription in coq/model/C04_Dispatch.v; tied by the end-to-end class)"]
 PER_SHARD = 170
 EXTRA_TARGETS = ["corr/C04_Corr.vo"]
@@ -400,6 +415,7 @@ def gen(rng, tier):
                                 cases[-1]["trail"] = 0
     cases += gen_conc(rng, scale)
     cases += gen_e2e(rng, tier)
+    cases += gen_cli(rng, tier)
     # --- (7) varintPut at the width boundaries, buffers of every small length
     for v in (0, 1, 63, 64, 255, 16383, 16384, 2**30 - 1, 2**30, 2**32, MAXV, MAXV + 1, 2**63, 2**64 - 1):
         for bl in (0, 1, 2, 3, 4, 5, 7, 8, 9):
@@ -505,6 +521,139 @@ def gen_e2e(rng, tier):
                       "ft_w": ftw, "wcuts": [], "sleep_ms": 0, "fin": True}
                 streams.append(st)
         out.append({"k": "e2e", "g": "e2e", "streams": streams})
+    return out
+
+
+CLI_BUFS = [1, 2, 3, 4, 7, 8, 16, 31, 64, 100, 512, 1000, 1024, 4095, 4096, 4097, 8192, 32768]
+
+
+def cli_bufs(rng, first=None):
+    """len(p) of the application's Reads (the last one repeats): one size throughout, a small first buffer and then a
+    large one (the relay pattern: peek a banner, then copy), or a mixed list."""
+    b0 = first if first is not None else rng.choice(CLI_BUFS)
+    r = rng.random()
+    if r < 0.5:
+        return [b0]
+    if r < 0.75:
+        return [b0, rng.choice([4096, 32768])]
+    return [b0] + [rng.choice(CLI_BUFS) for _ in range(rng.choice([1, 2, 4]))]
+
+
+def cli_case(rng, g, fo, L, wl, P, wp, trail, status, bufs, hold=-1, hold_ms=0, queue=0, wcuts=(), sleep_ms=0, fin=None):
+    segs, bounds, exp = frame(rng, "resp", L, wl, P, wp, trail, status)
+    T = total_len(segs)
+    if fin is None:
+        fin = rng.random() < 0.4
+    if trail == 0:
+        fin = True            # nothing to read behind the frame: the application sees io.EOF
+    return {"k": "cli", "g": g, "fo": fo, "segs": segs, "expect": "ok" if status == 0 else "dial", "msg_seg": exp["val_seg"],
+            "consumed": exp["consumed"], "wcuts": sorted(set(c for c in wcuts if 0 < c < T)), "sleep_ms": sleep_ms,
+            "hold": hold if hold < T else -1, "hold_ms": hold_ms, "queue": min(queue, T), "bufs": list(bufs), "fin": fin}
+
+
+def gen_cli(rng, tier):
+    """Client-side sessions: see harness/go/c04/c04_cli_test.go."""
+    scale = 1 if tier == "quick" else 6
+    out = []
+    LFIT = {1: [0, 1, 9, 63], 2: [0, 9, 64, 200, 2047, 2048], 4: [0, 9, 64, 2048], 8: [0, 1, 9, 2048]}
+    PFIT = {1: [0, 1, 63], 2: [0, 1, 64, 300, 4095, 4096], 4: [0, 64, 513, 4096], 8: [0, 1, 63, 4096]}
+    combos = [(a, p) for a in (1, 2, 4, 8) for p in (1, 2, 4, 8)]
+    rng.shuffle(combos)
+    ci = [0]
+
+    def lp():
+        wl, wp = combos[ci[0] % len(combos)]
+        ci[0] += 1
+        return rng.choice(LFIT[wl]), wl, rng.choice(PFIT[wp]), wp
+
+    def status(p_err=0.0):
+        return rng.choice([1, 2, 255]) if rng.random() < p_err else 0
+
+    # (A) hold at EVERY position of short streams: inside the frame (the response arrives in two parts), at its end
+    # (the response arrives alone), inside the payload (response and the first payload bytes coalesced)
+    small_bufs = [[1], [2], [3], [5], [1, 2, 3], [64], [2, 4096], [1, 1, 32768]]
+    bi = 0
+    for rep in range(scale):
+        for (L, wl, P, wp, st) in ((3, 1, 2, 1, 0), (0, 1, 1, 2, 0), (2, 2, 0, 4, 0), (2, 1, 1, 1, rng.choice([1, 255])), (1, 8, 3, 1, 0)):
+            trail = 6
+            T = 1 + wl + L + wp + P + trail
+            for h in range(0, T):
+                for fo in (True, False):
+                    if not fo and rng.random() < 0.4:
+                        continue
+                    out.append(cli_case(rng, "hold-every", fo, L, wl, P, wp, trail, st, small_bufs[bi % len(small_bufs)],
+                                        hold=h, hold_ms=rng.choice([3, 8]), fin=rng.random() < 0.5))
+                    bi += 1
+    # (B) everything queued before the first Read: response and the WHOLE payload coalesced
+    for _ in range(90 * scale):
+        L, wl, P, wp = lp()
+        trail = rng.choice([1, 2, 17, 64, 100, 700, 700, 3000, 3000, 5000, 9000])
+        fo = rng.random() < 0.67
+        bufs = cli_bufs(rng)
+        cons = 1 + wl + L + wp + P
+        wc = rng.choice([[], [], [cons], [cons + 1], [rng.randrange(1, cons + trail)], [1, cons - 1]])
+        out.append(cli_case(rng, "queued-all", fo, L, wl, P, wp, trail, status(0.1), bufs, queue=cons + trail, wcuts=wc,
+                            sleep_ms=rng.choice([0, 1])))
+    # (C) hold behind the frame: exactly h bytes are queued when the first Read runs
+    for _ in range(90 * scale):
+        L, wl, P, wp = lp()
+        trail = rng.choice([2, 17, 64, 100, 700, 3000, 5000, 9000])
+        cons = 1 + wl + L + wp + P
+        T = cons + trail
+        bufs = cli_bufs(rng)
+        b0 = bufs[0]
+        cand = [cons + 1, cons + 2, cons + b0 - 1, cons + b0, cons + b0 + 1, 4095, 4096, 4097, cons + 4096, T - 1,
+                rng.randrange(cons + 1, T), rng.randrange(cons + 1, T)]
+        cand = [h for h in cand if cons < h < T]
+        if not cand:
+            continue
+        h = rng.choice(cand)
+        fo = rng.random() < 0.67
+        out.append(cli_case(rng, "hold-behind", fo, L, wl, P, wp, trail, status(0.08), bufs, hold=h,
+                            wcuts=rng.choice([[], [], [cons], [rng.randrange(1, h)]]), sleep_ms=rng.choice([0, 1])))
+    # (D) free running: the application reads at once, the peer writes in pieces
+    for _ in range(40 * scale):
+        L, wl, P, wp = lp()
+        trail = rng.choice([0, 0, 1, 17, 100, 700, 3000])
+        cons = 1 + wl + L + wp + P
+        T = cons + trail
+        k = rng.choice([0, 1, 2, 3])
+        wc = [rng.randrange(1, T) for _ in range(k)] + ([cons] if rng.random() < 0.3 else [])
+        out.append(cli_case(rng, "free", rng.random() < 0.6, L, wl, P, wp, trail, status(0.1), cli_bufs(rng), wcuts=wc,
+                            sleep_ms=rng.choice([0, 1, 2])))
+    # (E) failure responses: every status class, message lengths across the varint widths, bytes behind the frame
+    for _ in range(36 * scale):
+        L, wl, P, wp = lp()
+        trail = rng.choice([0, 0, 1, 50, 700])
+        cons = 1 + wl + L + wp + P
+        st = rng.choice([1, 1, 2, 255])
+        mode = rng.choice(["queued", "hold", "free"])
+        kw = {}
+        if mode == "queued":
+            kw = dict(queue=cons + trail)
+        elif mode == "hold" and trail > 1:
+            kw = dict(hold=rng.randrange(cons + 1, cons + trail))
+        out.append(cli_case(rng, "dial", rng.random() < 0.6, L, wl, P, wp, trail, st, cli_bufs(rng), **kw))
+    # (F) over-limit lengths in the response: rejected, never a DialError, no payload byte
+    for _ in range(16 * scale):
+        fo = rng.random() < 0.6
+        st = rng.choice([0, 0, 1])
+        follow = rng.choice([0, 50, 300])
+        if rng.random() < 0.5:
+            v = rng.choice([2049, 2050, 16384, 2**30, MAXV])
+            w = rng.choice(widths(v))
+            segs = [lit(bytes([st])), vi(w, v)]
+        else:
+            L = rng.choice([0, 9, 2048])
+            v = rng.choice([4097, 4098, 16384, 2**30, MAXV])
+            w = rng.choice(widths(v))
+            segs = [lit(bytes([st])), vi(rng.choice(widths(L)), L)] + ([gen_seg(rng, L)] if L else []) + [vi(w, v)]
+        cons = total_len(segs)
+        if follow:
+            segs.append(gen_seg(rng, follow))
+        out.append({"k": "cli", "g": "invalid", "fo": fo, "segs": segs, "expect": "invalid", "msg_seg": -1, "consumed": cons,
+                    "wcuts": [], "sleep_ms": 0, "hold": -1, "hold_ms": 0, "queue": rng.choice([0, cons + follow]),
+                    "bufs": cli_bufs(rng), "fin": rng.random() < 0.5})
     return out
 
 
@@ -614,8 +763,28 @@ def obs_term(o):
                                                    o["llen"], o["ldg"], o["req"], o["max"], o["calls"])
 
 
+CLI_TCP = {"ok": 0, "eof": 1, "short": 2, "invalid": 3, "other": 4, "dial": 7}
+CLI_FIN = {"none": 9, "eof": 1, "short": 2, "invalid": 3, "other": 4, "dial": 7}
+
+
+def cli_cuts(c):
+    """The part of the stream that was queued when the application's first Read ran, then the rest."""
+    T = total_len(c["segs"])
+    h = c["hold"] if c["hold"] > c["consumed"] else c.get("queue", 0)
+    return [4 * h] if 0 < h < T else []
+
+
 def to_coq(c, o):
     k = c["k"]
+    if k == "cli":
+        if o.get("skip") or o.get("panic") or o.get("tcp") not in CLI_TCP or o.get("final") not in CLI_FIN:
+            return None      # nothing observed (infrastructure) / a timeout or overrun: the harness verdict speaks
+        segs = "[" + ";".join(seg_term(x) for x in c["segs"]) + "]"
+        plen = 0 if c["expect"] == "invalid" else total_len(c["segs"]) - c["consumed"]
+        return "CCli %s %s %s [%s] %d [%s] (mkCO %d %d %d %d %d %d)" % (
+            "true" if c["fo"] else "false", "true" if c["fin"] else "false", segs, ";".join(str(x) for x in cli_cuts(c)),
+            plen, ";".join(str(b) for b in (c["bufs"] or [4096])), CLI_TCP[o["tcp"]], CLI_FIN[o["final"]],
+            o["mlen"], o["mdg"], o["glen"], o["gdg"])
     if k == "e2e":
         so_all = o.get("streams") or []
         if o.get("skip") or len(so_all) != len(c["streams"]):
@@ -660,6 +829,8 @@ def to_coq(c, o):
 
 def klass(c, o):
     k = c["k"]
+    if k == "cli":
+        return "cli:%s:%s:%s" % (c["g"], "fastopen" if c["fo"] else "eager", "skipped" if o.get("skip") else c["expect"])
     if k == "e2e":
         return "e2e:" + ("skipped" if o.get("skip") else "run")
     if k == "conc":
@@ -673,6 +844,8 @@ def klass(c, o):
 
 def nontrivial(c, o):
     k = c["k"]
+    if k == "cli":
+        return not o.get("skip") and (c["expect"] != "ok" or o.get("glen", 0) > 0 or c["fin"])
     if k == "e2e":
         return not o.get("skip") and any(so.get("dialed") for so in (o.get("streams") or []))
     if k == "conc":
@@ -722,24 +895,45 @@ def run_split(ctx, orig):
     def both(ctx_, gospec, cases, tag="main", timeout=900, race=False):
         if gospec is not GO:
             return orig(ctx_, gospec, cases, tag=tag, timeout=timeout, race=race)
-        ia = [i for i, c in enumerate(cases) if c.get("k") != "e2e"]
+        ia = [i for i, c in enumerate(cases) if c.get("k") not in ("e2e", "cli")]
         ib = [i for i, c in enumerate(cases) if c.get("k") == "e2e"]
-        if not ib:
+        ic = [i for i, c in enumerate(cases) if c.get("k") == "cli"]
+        if not ib and not ic:
             return orig(ctx_, GO, cases, tag=tag, timeout=timeout, race=race)
         res = {}
+
+        def run_cli():
+            t0 = time.time()
+            res["c"] = orig(ctx_, GO_CLI, [cases[i] for i in ic], tag=tag + "_cli", timeout=min(timeout, 900), race=race)
+            res["tc"] = time.time() - t0
+
+        thc = None
+        if ic:
+            thc = threading.Thread(target=run_cli)
+            thc.start()
 
         def run_e2e():
             t0 = time.time()
             res["r"] = orig(ctx_, GO_E2E, [cases[i] for i in ib], tag=tag + "_e2e", timeout=min(timeout, 600), race=race)
             res["t"] = time.time() - t0
 
-        th = threading.Thread(target=run_e2e)
-        th.start()
+        th = None
+        if ib:
+            th = threading.Thread(target=run_e2e)
+            th.start()
         ok1, o1, params, log1 = (True, [], None, "")
         if ia:
             ok1, o1, params, log1 = orig(ctx_, GO, [cases[i] for i in ia], tag=tag, timeout=timeout, race=race)
-        th.join()
-        ok2, o2, _, log2 = res.get("r", (False, [], None, "end-to-end harness did not run"))
+        if th:
+            th.join()
+        if thc:
+            thc.join()
+        ok2, o2, _, log2 = res.get("r", (False, [], None, "end-to-end harness did not run")) if ib else (True, [], None, "")
+        ok3, o3, _, log3 = res.get("c", (False, [], None, "client-side harness did not run")) if ic else (True, [], None, "")
+        if len(o3) != len(ic):
+            ok3 = False
+            o3 = list(o3) + [{"k": "cli", "ok": True, "why": "", "skip": "client-side harness did not finish"}] * (len(ic) - len(o3))
+            log3 = "client-side harness (core/client) failed:\n" + log3
         if len(o1) != len(ia):
             return False, [], params, log1 + log2
         if len(o2) != len(ib):
@@ -752,6 +946,18 @@ def run_split(ctx, orig):
             outs[i] = o
         for i, o in zip(ib, o2):
             outs[i] = o
+        for i, o in zip(ic, o3):
+            outs[i] = o
+        if ic:
+            nsk = sum(1 for o in o3 if o.get("skip"))
+            stats["cli"] = stats.get("cli", 0) + len(ic)
+            stats["cli_skipped"] = stats.get("cli_skipped", 0) + nsk
+            ctx_.say("client-side class (%s): %d sessions through the real clientImpl.TCP / tcpConn.Read in %.1fs; skipped for infrastructure reasons: %d%s" % (
+                tag, len(ic), res.get("tc", 0.0), nsk, (" (first: %s)" % next((o.get("skip") for o in o3 if o.get("skip")), None)) if nsk else ""))
+            if nsk == len(ic):
+                ctx_.say("client-side class (%s): EVERY session was skipped - this run has validated NOTHING of the client path" % tag)
+        if not ib:
+            return ok1 and ok3, outs, params, log1 + log3
         ns = sum(len(cases[i]["streams"]) for i in ib)
         nss = sum(len(cases[i]["streams"]) if o.get("skip") else int(o.get("nskip", 0)) for i, o in zip(ib, o2))
         ncs = sum(1 for o in o2 if o.get("skip"))
@@ -763,7 +969,7 @@ def run_split(ctx, orig):
         if ncs == len(ib):
             ctx_.say("end-to-end class (%s): EVERY connection was skipped - this run has validated NOTHING of the real server path "
                      "(dispatcher / ProxyStreamHijacker / handleTCPRequest); only the scripted-reader classes and the theorems count" % tag)
-        return ok1 and ok2, outs, params, log1 + log2
+        return ok1 and ok2 and ok3, outs, params, log1 + log2 + log3
 
     return both, stats
 
@@ -837,7 +1043,7 @@ def replay(ctx, path):
     if not c:
         print("replay file names a broken obligation/correspondence, no concrete input:", r["what"])
         return 1
-    ok, outs, _, log = common.run_go_cases(ctx, GO_E2E if c.get("k") == "e2e" else GO, [c], tag="replay")
+    ok, outs, _, log = common.run_go_cases(ctx, {"e2e": GO_E2E, "cli": GO_CLI}.get(c.get("k"), GO), [c], tag="replay")
     print(json.dumps(outs, indent=1))
     return 0 if outs and outs[0].get("ok") else 1
 
@@ -852,7 +1058,11 @@ LEVEL_TEXT = ("Machine-checked Coq theorems over a statement-by-statement Gallin
               "fitting width of the frame type the dispatcher and the hijacker decode the same bytes, the request is decoded to the address "
               "sent and exactly the trailing payload is left, other frame types are left untouched; an io.EOF delivered together with the "
               "last bytes of a stream is indistinguishable from an io.EOF at the next Read for all three readers (any script), hence complete "
-              "frames are read back when FIN is coalesced with their last bytes. The model is tied to /repo on "
+              "frames are read back when FIN is coalesced with their last bytes; the client side (clientImpl.TCP and the lazy FastOpen path of "
+              "tcpConn.Read) is modelled on top of the response reader: in both modes the application's first Read equals a plain Read on a "
+              "stream that delivers exactly the payload, a failure status yields a DialError with exactly the message and leaves the stream "
+              "behind the frame, and Reads with buffers of arbitrary positive sizes return exactly the payload and then io.EOF, for every "
+              "chunking. The model is tied to /repo on "
               "every run by regenerated constants and a differential run of the Go code against the model (vm_compute in the kernel).")
 LEVEL_NOTE = ("Trusted: Coq kernel + vm_compute; hand-written model incl. the transcription of Go's io helpers (tie is sampled differential "
               "testing + regenerated Params); python/Go glue. No axioms. Not proved: QUIC stream internals; out-of-memory behaviour of make().")
